@@ -691,10 +691,32 @@ def run_scalar(ctx: Ctx) -> None:
     from harness import c02 as _c02  # the trusted renderer whose decisions the model now reproduces
 
     for req, meta, out in zip(reqs, metas, outs):
+        _dispatch(ctx, req, meta, out, _c02)
+
+
+def replay_scalar(ctx: Ctx, case: dict) -> None:
+    """re-run one recorded scalar case (`case` as stored by ctx.fail / ctx.disagree: {"op", "dir"?, "entry"?, "x"})"""
+    from harness import c02 as _c02
+    op = case["op"]
+    if op == "f32_to_f64":
+        req, meta = {"m": "serdescalar.f32_to_f64", "xs": [case["x"]]}, {"op": op, "xs": [case["x"]], "exhaustive": False}
+    elif op == "f64_to_f32":
+        req, meta = {"m": "serdescalar.f64_to_f32", "xs": [str(case["x"])]}, {"op": op, "xs": [int(case["x"])]}
+    elif op == "utf8":
+        req, meta = {"m": "serdescalar.utf8", "xs": [case["x"]]}, {"op": op, "xs": [bytes.fromhex(case["x"])]}
+    else:
+        req = {"m": "serdescalar." + op, "dir": case["dir"], "x": case["x"]}
+        meta = dict(case)
+    out = lean_batch_parallel([req])[0]
+    _dispatch(ctx, req, meta, out, _c02)
+
+
+def _dispatch(ctx, req, meta, out, _c02):
+    if True:
         op = meta["op"]
         if "err" in out and "ok" not in out and "rs" not in out:
             ctx.disagree(f"serdescalar.{op}: driver error", req, model=out, impl=None)
-            continue
+            return
         if op == "dim" and meta["dir"] == "des":
             _run_dim_des(ctx, meta["x"], out, _c02)
         elif op == "dim":
